@@ -3,6 +3,7 @@ C14 — echoing, quieting and dry-run follow the documented truth table.
 Theorems about `Just.Run` (model of src/recipe.rs run_linewise / run_script).
 -/
 import Just.Model.Run
+import Just.Lemmas.RunSpec
 namespace Just.Props.C14
 open Just.Run
 
@@ -167,109 +168,106 @@ theorem runBody_dry (cfg : Cfg) (env : Env) (ri : Nat) (r : Recipe) (given ps : 
       split <;> simp [execs_map_echo]
   · exact runLines_dry cfg env ri r given ps h r.body
 
+theorem execs_promptOf (cfg : Cfg) (r : Recipe) (ri : Nat) : execs (promptOf cfg r ri) = [] := by
+  unfold promptOf; split <;> rfl
+
+theorem dry_run_all {P : Prog} {cfg : Cfg} {env : Env} (h : cfg.dryRun = true)
+    {c : Call} {es : List Ev} {res : Except Err Ran} (hr : Runs P cfg env c es res) :
+    execs es = [] := by
+  induction hr with
+  | memo _ => rfl
+  | outOfFuel => rfl
+  | noRecipe _ _ => rfl
+  | notConfirmed _ _ _ _ => rfl
+  | @bindFail fuel sub ri given ran k r e1 e _ _ _ hb =>
+    have := bindParams_dry cfg env h r.params given []
+    rw [hb] at this
+    simp [execs_promptOf, this]
+  | @priorsFail fuel sub ri given ran k r e1 ps e2 e _ _ _ hb _ ih =>
+    have := bindParams_dry cfg env h r.params given []
+    rw [hb] at this
+    simp [execs_promptOf, this, ih]
+  | @bodyFail fuel sub ri given ran k r e1 ps e2 ran1 e3 e _ _ _ hb _ hbody ih =>
+    have h1 := bindParams_dry cfg env h r.params given []
+    rw [hb] at h1
+    have h3 := runBody_dry cfg env ri r given ps h
+    rw [hbody] at h3
+    simp [execs_promptOf, h1, h3, ih]
+  | @subsFail fuel sub ri given ran k r e1 ps e2 ran1 e3 e4 e _ _ _ hb _ hbody _ ih2 ih4 =>
+    have h1 := bindParams_dry cfg env h r.params given []
+    rw [hb] at h1
+    have h3 := runBody_dry cfg env ri r given ps h
+    rw [hbody] at h3
+    simp [execs_promptOf, h1, h3, ih2, ih4]
+  | @done fuel sub ri given ran k r e1 ps e2 ran1 e3 e4 ranS _ _ _ hb _ hbody _ ih2 ih4 =>
+    have h1 := bindParams_dry cfg env h r.params given []
+    rw [hb] at h1
+    have h3 := runBody_dry cfg env ri r given ps h
+    rw [hbody] at h3
+    simp [execs_promptOf, h1, h3, ih2, ih4]
+  | depsNil => rfl
+  | depsSkip _ => rfl
+  | @depsEvalFail fuel sub d ds ps ran k e1 e _ he =>
+    have := evalList_dry cfg env ps h d.args
+    rw [he] at this; exact this
+  | @depsRecFail fuel sub d ds ps ran k e1 given e2 e _ he _ ih =>
+    have := evalList_dry cfg env ps h d.args
+    rw [he] at this
+    simp [this, ih]
+  | @depsCons fuel sub d ds ps ran k e1 given e2 ran1 e3 res _ he _ _ ih2 ih3 =>
+    have := evalList_dry cfg env ps h d.args
+    rw [he] at this
+    simp [this, ih2, ih3]
+
 /-- `--dry-run` executes nothing: no recipe command, script or backtick is spawned, for every
-program, every command line, every fuel, every memo state and every behaviour of the children. -/
-theorem dry_run_executes_nothing (P : Prog) (cfg : Cfg) (env : Env) (h : cfg.dryRun = true) :
-    ∀ fuel,
-      (∀ sub ri given ran k, execs (runRecipe P cfg env fuel sub ri given ran k).1 = []) ∧
-      (∀ sub ds ps ran k, execs (runDeps P cfg env fuel sub ds ps ran k).1 = []) := by
-  intro fuel
-  induction fuel with
-  | zero =>
-    have hr : ∀ sub ri given ran k, execs (runRecipe P cfg env 0 sub ri given ran k).1 = [] := by
-      intro sub ri given ran k; simp [runRecipe]
-    refine ⟨hr, ?_⟩
-    intro sub ds
-    induction ds with
-    | nil => intro ps ran k; simp [runDeps]
-    | cons d ds ih =>
-      intro ps ran k
-      rw [runDeps]
-      have ha := evalList_dry cfg env ps h d.args
-      split
-      · rename_i e1 e heq; rw [heq] at ha; simpa using ha
-      · rename_i e1 gv heq
-        rw [heq] at ha
-        have h2 := hr sub d.target gv ran k
-        split
-        · rename_i e2 e heq2; rw [heq2] at h2; simp_all
-        · rename_i e2 ran1 heq2
-          rw [heq2] at h2
-          have h3 := ih ps ran1 (k + countPrompts e2)
-          simp_all
-  | succ n ihn =>
-    obtain ⟨ihR, ihD⟩ := ihn
-    have hr : ∀ sub ri given ran k, execs (runRecipe P cfg env (n+1) sub ri given ran k).1 = [] := by
-      intro sub ri given ran k
-      rw [runRecipe]
-      split
-      · simp
-      · split
-        · simp
-        · rename_i r hr
-          simp only
-          split
-          · split <;> simp [execs, isExec]
-          · have hb := bindParams_dry cfg env h r.params given []
-            have he0 : execs (if (r.confirm && !cfg.yes) = true then [Ev.prompt ri] else []) = [] := by
-              split <;> simp [execs, isExec]
-            split
-            · rename_i e1 e heq; rw [heq] at hb; simp_all
-            · rename_i e1 ps heq
-              rw [heq] at hb
-              split
-              · rename_i e2 e heq2
-                have : execs e2 = [] := by
-                  split at heq2
-                  · cases heq2 <;> rfl
-                  · have := ihD sub r.priors ps ran (k + countPrompts (if (r.confirm && !cfg.yes) = true then [Ev.prompt ri] else []))
-                    rw [heq2] at this; exact this
-                simp_all
-              · rename_i e2 ran1 heq2
-                have h2 : execs e2 = [] := by
-                  split at heq2
-                  · cases heq2 <;> rfl
-                  · have := ihD sub r.priors ps ran (k + countPrompts (if (r.confirm && !cfg.yes) = true then [Ev.prompt ri] else []))
-                    rw [heq2] at this; exact this
-                have h3 := runBody_dry cfg env ri r given ps h
-                split
-                · rename_i e3 e heq3; rw [heq3] at h3; simp_all
-                · rename_i e3 heq3
-                  rw [heq3] at h3
-                  split
-                  · rename_i e4 e heq4
-                    have : execs e4 = [] := by
-                      split at heq4
-                      · cases heq4 <;> rfl
-                      · have := ihD true r.subs ps [] (k + countPrompts (if (r.confirm && !cfg.yes) = true then [Ev.prompt ri] else []) + countPrompts e2)
-                        rw [heq4] at this; exact this
-                    simp_all
-                  · rename_i e4 x heq4
-                    have : execs e4 = [] := by
-                      split at heq4
-                      · cases heq4 <;> rfl
-                      · have := ihD true r.subs ps [] (k + countPrompts (if (r.confirm && !cfg.yes) = true then [Ev.prompt ri] else []) + countPrompts e2)
-                        rw [heq4] at this; exact this
-                    simp_all
-    refine ⟨hr, ?_⟩
-    intro sub ds
-    induction ds with
-    | nil => intro ps ran k; simp [runDeps]
-    | cons d ds ih =>
-      intro ps ran k
-      rw [runDeps]
-      have ha := evalList_dry cfg env ps h d.args
-      split
-      · rename_i e1 e heq; rw [heq] at ha; simpa using ha
-      · rename_i e1 gv heq
-        rw [heq] at ha
-        have h2 := hr sub d.target gv ran k
-        split
-        · rename_i e2 e heq2; rw [heq2] at h2; simp_all
-        · rename_i e2 ran1 heq2
-          rw [heq2] at h2
-          have h3 := ih ps ran1 (k + countPrompts e2)
-          simp_all
+program, every invocation, every fuel, every memo state and every behaviour of the children. -/
+theorem dry_run_executes_nothing (P : Prog) (cfg : Cfg) (env : Env) (h : cfg.dryRun = true)
+    (fuel : Nat) (sub : Bool) (ri : Nat) (given : Args) (ran : Ran) (k : Nat) :
+    execs (runRecipe P cfg env fuel sub ri given ran k).1 = [] :=
+  dry_run_all h (runRecipe_sound P cfg env fuel sub ri given ran k _ _ rfl)
+
+theorem runAssigns_dry (cfg : Cfg) (env : Env) (h : cfg.dryRun = true) (cs : List String) :
+    execs (runAssigns cfg env cs).1 = [] := by
+  induction cs with
+  | nil => rfl
+  | cons c cs ih =>
+    simp only [runAssigns]
+    have ha := evalA_dry cfg env [] h (.bt c)
+    split
+    · rename_i e1 e heq; rw [heq] at ha; exact ha
+    · rename_i e1 v heq
+      rw [heq] at ha
+      simp_all
+
+theorem runInvs_dry (P : Prog) (cfg : Cfg) (env : Env) (h : cfg.dryRun = true) (fuel : Nat)
+    (invs : List Key) : ∀ ran k, execs (runInvs P cfg env fuel invs ran k).1 = [] := by
+  induction invs with
+  | nil => intro ran k; rfl
+  | cons inv invs ih =>
+    intro ran k
+    obtain ⟨ri, given⟩ := inv
+    simp only [runInvs]
+    have h1 := dry_run_executes_nothing P cfg env h fuel false ri given ran k
+    split
+    · rename_i e1 e heq; rw [heq] at h1; exact h1
+    · rename_i e1 ran1 heq
+      rw [heq] at h1
+      have := ih ran1 (k + countPrompts e1)
+      simp_all
+
+/-- the whole `just --dry-run …` run spawns nothing -/
+theorem dry_run_main_executes_nothing (P : Prog) (cfg : Cfg) (env : Env) (h : cfg.dryRun = true)
+    (invs : List Key) : execs (runMain P cfg env invs).1 = [] := by
+  unfold runMain
+  have h1 := runAssigns_dry cfg env h P.assigns
+  split
+  · rename_i e1 e heq; rw [heq] at h1; exact h1
+  · rename_i e1 heq
+    rw [heq] at h1
+    have h2 := runInvs_dry P cfg env h (P.recipes.length + 1) invs [] 0
+    split
+    · rename_i e2 e heq2; rw [heq2] at h2; simp_all
+    · rename_i e2 x heq2; rw [heq2] at h2; simp_all
 
 /-- Non-vacuity: a dry run of a concrete recipe body prints its commands and spawns nothing,
 although every command would fail. -/
